@@ -484,3 +484,139 @@ CHECKS["C17"] = session_check({"mc": "MC_Session", "mc_cfg": {"quick": "MC_Sessi
 
 CHECKS["C02"] = session_check({"mc": "MC_C02", "mc_cfg": {"quick": "MC_C02.cfg", "thorough": "MC_C02_thorough.cfg"},
                                "gen": sess.gen_c02, "assumptions": SESSION_ASSUME + ["cget/cset cycles of 2-4 unsynchronised sessions; no barriers"]})
+
+
+# ----------------------------------------------------------------------------- C16: aggregator
+AGG_TRACE_CFG = """SPECIFICATION TraceSpec
+CONSTANTS
+  D = 5
+  Keys_ = {}
+  MaxEv = 100000
+  MaxTime = 100000
+INVARIANTS NotAccepted ContentInv DelayInv TimerInv
+CHECK_DEADLOCK FALSE
+"""
+
+
+def agg_schedules(tier, rnd):
+    import itertools
+    keys = ["k1", "k2", "k3"]
+    scs = []
+    # every arrival pattern of up to 3 events on 2 keys with gaps around the interval (5 ms)
+    gaps = [0, 2, 5, 6]
+    evs = [(k, kd) for k in keys[:2] for kd in ("set", "del")]
+    for n in (1, 2, 3):
+        for combo in itertools.product(evs, repeat=n):
+            for gs in itertools.product(gaps, repeat=n - 1):
+                ops = []
+                for i, (k, kd) in enumerate(combo):
+                    if i:
+                        ops.append({"op": "adv", "ms": gs[i - 1]})
+                    ops.append({"op": "ev", "kind": kd, "k": k, "v": "v%d" % i})
+                ops.append({"op": "adv", "ms": 12})
+                scs.append(ops)
+    nrand = 400 if tier == "quick" else 20000
+    for _ in range(nrand):
+        ops = []
+        for i in range(rnd.randint(2, 10)):
+            if rnd.random() < 0.6:
+                ops.append({"op": "adv", "ms": rnd.choice([0, 1, 1, 2, 3, 4, 5, 5, 6, 9])})
+            burst = rnd.choice([1, 1, 1, 2, 3])
+            for b in range(burst):
+                ops.append({"op": "ev", "kind": rnd.choice(["set", "set", "del"]), "k": rnd.choice(keys), "v": "v%d_%d" % (i, b)})
+        ops.append({"op": "adv", "ms": 12})
+        scs.append(ops)
+    return scs
+
+
+def c16_check(prop, tier, seed, replay):
+    build_s = vlib.build_harness()
+    d = vlib.workdir(prop)
+    violations = []
+    rnd = random.Random(seed)
+
+    def write(path, scs):
+        with open(path, "w") as f:
+            f.write('{"hdr":true,"d":5}\n')
+            for i, ops in enumerate(scs):
+                if i:
+                    f.write('{"op":"reset"}\n')
+                for o in ops:
+                    f.write(json.dumps(o) + "\n")
+
+    def validate(tr):
+        sub = tr + ".d"
+        os.makedirs(sub, exist_ok=True)
+        for f in ("Aggregator.tla", "Trace_Aggregator.tla"):
+            shutil.copy(os.path.join(d, f), sub)
+        env = dict(vlib.TRACE_ENV)
+        env["TRACE"] = tr
+        out = vlib.tlc(sub, "Trace_Aggregator", AGG_TRACE_CFG, workers=1, timeout=1200, env=env, heap="3g")
+        if "Invariant NotAccepted is violated" in out:
+            return True, None
+        err = vlib.tlc_error(out)
+        if err and "Invariant" in err:
+            return False, err
+        if vlib.tlc_stats(out) is None:
+            raise ToolError("TLC failed on aggregator trace:\n" + out[-3000:])
+        return False, "no behaviour of Aggregator.tla produces the recorded batches at the recorded times"
+
+    def run(scs, tag):
+        req = os.path.join(d, f"req_{tag}.ndjson")
+        tr = os.path.join(d, f"tr_{tag}.ndjson")
+        write(req, scs)
+        vlib.run_harness(["agg-run", req, tr])
+        ok, why = validate(tr)
+        return ok, why, sum(1 for _ in open(tr)) - 1
+
+    def locate(scs, tag):
+        # bisect to the first failing schedule
+        for i, ops in enumerate(scs):
+            ok, why, _ = run([ops], f"{tag}_one")
+            if not ok:
+                return ops, why
+        return scs, "only the combination fails"
+
+    if replay:
+        pl = json.load(open(replay))
+        ok, why, _ = run([pl["schedule"]], "replay")
+        if not ok:
+            violations.append({"replay": replay, "what": why})
+        return {"known": {}, "violations": violations}
+
+    t1 = time.time()
+    out = vlib.tlc(d, "Aggregator", open(os.path.join(vlib.SPEC, "MC_C16.cfg" if tier == "quick" else "MC_C16_thorough.cfg")).read(),
+                   workers=8, timeout=3000, heap="8g")
+    err, st = vlib.tlc_error(out), vlib.tlc_stats(out)
+    if err or not st:
+        raise ToolError("model checking of Aggregator failed: %s\n%s" % (err, out[-3000:]))
+    log(f"[{prop}] TLC Aggregator: {st['distinct']} distinct states, {st['generated']} transitions, {time.time()-t1:.0f}s")
+    if tier == "thorough":
+        out2 = vlib.tlc(d, "Aggregator", open(os.path.join(vlib.SPEC, "MC_C16_live.cfg")).read(), workers=8, timeout=3000, heap="8g")
+        if vlib.tlc_error(out2):
+            raise ToolError("liveness check of Aggregator failed:\n" + out2[-3000:])
+        log(f"[{prop}] TLC liveness (every event eventually sent, weak fairness): ok")
+    scs = agg_schedules(tier, rnd)
+    nb = 8
+    t2 = time.time()
+    res = vlib.parallel(lambda ib: (ib[0], run(scs[ib[0]::nb], f"b{ib[0]}")), [(i, None) for i in range(nb)])
+    nrec = 0
+    for i, (ok, why, n) in res:
+        nrec += n
+        if not ok:
+            ops, why2 = locate(scs[i::nb], f"b{i}")
+            p = vlib.save_replay(prop, f"sched_{len(violations)}", {"property": prop, "kind": "aggregator-schedule", "schedule": ops, "why": why2})
+            violations.append({"replay": p, "what": why2})
+    log(f"[{prop}] {len(scs)} schedules on the real PStateAggregator (paused clock), {nrec} records validated, {time.time()-t2:.0f}s")
+    cov = {"states": st["distinct"], "transitions": st["generated"], "traces_validated_against_impl": len(scs),
+           "samples": [scs[5], scs[-1]], "exhaustive": True, "trace_records_validated": nrec,
+           "explanation": "TLC exhaustive on the aggregator step machine (content, delay and timer invariants) for all arrival sequences within "
+                          "the bounds; the real PStateAggregator is driven on tokio's paused clock and every batch must be sent at exactly the "
+                          "virtual time at which some behaviour of the specification sends it"}
+    return {"coverage": cov, "known": {}, "violations": violations,
+            "assumptions": ["virtual time (tokio paused clock), 1 ms steps; processing takes no virtual time",
+                            "the client connection always takes the batches (channel never full)",
+                            "content on a live session (aggregated vs plain subscription over the socket) is not part of this check yet"]}
+
+
+CHECKS["C16"] = c16_check
